@@ -364,6 +364,47 @@ impl Monitor for Behav {
         }
     }
 
+    fn shrink_count(&mut self, case: &Case) -> Option<usize> {
+        let src = case["src"].as_str().unwrap_or("");
+        let cfg = &case["configs"][0];
+        let nrules = cfg["rules"].as_array().map(|a| a.len()).unwrap_or(0);
+        let n_cfg = if nrules > 1 { nrules } else { 0 } + 2;
+        let n_src = crate::gen::shrink::SrcShrinker::new(src).map(|s| s.count()).unwrap_or(0);
+        Some(n_cfg + n_src)
+    }
+
+    fn shrink_candidate(&mut self, case: &Case, i: usize) -> Option<Case> {
+        let src = case["src"].as_str().unwrap_or("");
+        let cfg = &case["configs"][0];
+        let rules: Vec<Value> = cfg["rules"].as_array().cloned().unwrap_or_default();
+        let n_rules = if rules.len() > 1 { rules.len() } else { 0 };
+        if i < n_rules {
+            let mut r2 = rules.clone();
+            r2.remove(i);
+            let mut c = case.clone();
+            c["configs"] = json!([{"rules": r2, "generator": cfg["generator"], "model": cfg["model"]}]);
+            return Some(c);
+        }
+        let i = i - n_rules;
+        if i < 2 {
+            let g = ["'retain_lines'", "'dense'"][i];
+            if cfg["generator"].as_str() == Some(g) || (i == 1 && cfg["generator"].as_str() == Some("'retain_lines'")) {
+                return None;
+            }
+            let mut c = case.clone();
+            c["configs"][0]["generator"] = json!(g);
+            return Some(c);
+        }
+        let i = i - 2;
+        // (the parse is repeated per candidate; it is cheap next to running the case)
+        let sh = crate::gen::shrink::SrcShrinker::new(src)?;
+        let text = sh.candidate(i)?;
+        let mut c = case.clone();
+        c["src"] = json!(text);
+        c["configs"] = json!([cfg]);
+        Some(c)
+    }
+
     fn shrink(&mut self, case: &Case) -> Vec<Case> {
         let mut out = vec![];
         let src = case["src"].as_str().unwrap_or("");
@@ -404,7 +445,19 @@ impl Monitor for Behav {
         names.sort();
         names.dedup();
         let src = case["src"].as_str().unwrap_or("");
-        let trig = super::triggers::classify(src, &names);
+        let inj = rules.iter().find(|r| r.contains("inject_global_value")).and_then(|r| r.split("identifier:").nth(1)).map(|r| r.trim().trim_start_matches('\'').split('\'').next().unwrap_or("").to_string());
+        super::triggers::INJECT_NAME.with(|n| *n.borrow_mut() = inj);
+        let mut trig = super::triggers::classify(src, &names);
+        if trig == "other" && names.iter().any(|n| n == "convert_square_root_call") {
+            // does the difference vanish when math.sqrt is modelled as `x ^ 0.5` (the documented rewrite)?
+            let generator = cfg["generator"].as_str().unwrap_or("'retain_lines'");
+            if let Ok(out) = dl::process_one(src, &dl::config_json(&rules, generator)) {
+                let opts = ExecOpts { both_dialects: true, universal: case["universal"].as_bool().unwrap_or(false), fuel: 200_000, model: Model::SqrtAsPow };
+                if let Cmp::Same = compare(src, &out, &opts) {
+                    trig = "sqrt_vs_pow_edge_value".into();
+                }
+            }
+        }
         format!("{}|{}|{}", signature, names.join("+"), trig)
     }
 }
